@@ -111,7 +111,9 @@ def check_curve(case):
 def fn_strategy(draw):
     n, m = draw(st.integers(0, 3)), draw(st.integers(0, 3))
     t = draw(gen.feed_temperature)
-    return {"n": n, "m": m, "alpha": draw(gen.signed_log(1e-9, 1e3)), "a": [draw(gen.signed_log(1e-9, 1e3)) for _ in range(n)],
+    # the class does not tie len(a) to n: the library's own default fit is n=0, m=0, a=[0], b=[0]
+    extra = draw(st.integers(0, 1))
+    return {"n": n, "m": m, "alpha": draw(gen.signed_log(1e-9, 1e3)), "a": [draw(gen.signed_log(1e-9, 1e3)) for _ in range(n + extra)],
             "b": [draw(gen.signed_log(1e-9, 1e4)) for _ in range(m + 1)], "numpy": draw(st.booleans()),
             "cond": {"area": draw(_value()), "T": t, "amount": draw(_value()), "x": draw(gen.fraction()), "basis": draw(gen.basis),
                      "Tp": draw(st.one_of(st.none(), gen.uniform(120.0, t))), "pp": draw(st.one_of(st.none(), st.just(0.0), _value(1e-9, 100.0)))}}
@@ -120,7 +122,7 @@ def fn_strategy(draw):
 def _fn_obj(case):
     from pyvaporation import PervaporationFunction
 
-    if case["numpy"]:
+    if case["numpy"] and len(case["a"]) == case["n"]:
         import numpy
 
         return PervaporationFunction.from_array(numpy.array([case["alpha"]] + case["a"] + case["b"]), n=case["n"], m=case["m"])
@@ -328,6 +330,7 @@ class SaveHistory:
         self.saved = {}  # dir name -> sha256
         self.saves = 0
         self.collisions = 0
+        self.failed = 0
 
     def _check_old(self, what):
         now = _tree_hash(self.root)
@@ -341,7 +344,16 @@ class SaveHistory:
 
         model, mix = self.models[op["model"] % len(self.models)]
         what = "%s(model %d, is_safe=%r)" % (op["op"], op["model"] % len(self.models), op["safe"])
-        if op["op"] == "save":
+        if op["op"] == "failing_save":
+            # a save that is documented to fail (JSON mode needs initial conditions) must leave every earlier directory alone
+            import attr as _attr
+
+            broken = _attr.evolve(model, initial_conditions=None)
+            out = call(broken.save, self.root, True)
+            if not is_raised(out):
+                raise Violation("%s: saving a model without initial conditions in JSON mode returned instead of raising" % what)
+            self.failed += 1
+        elif op["op"] == "save":
             pdir = save_and_load(model, mix, self.root, op["safe"], what)
             if pdir is not None:
                 self.saves += 1
@@ -367,7 +379,7 @@ class SaveHistory:
         self.saved = self._check_old(what)
 
     def summary(self):
-        return {"nontrivial": self.saves >= 2, "classes": ["saves=%d" % min(self.saves, 6), "collisions=%d" % min(self.collisions, 3)]}
+        return {"nontrivial": self.saves >= 2, "classes": ["saves=%d" % min(self.saves, 6), "collisions=%d" % min(self.collisions, 3), "failed-saves=%d" % min(self.failed, 3)]}
 
     def close(self):
         shutil.rmtree(self.root, ignore_errors=True)
@@ -376,7 +388,7 @@ class SaveHistory:
 def save_machine(tier, stats):
     init = st.fixed_dictionaries({"models": st.lists(direct_model(), min_size=1, max_size=3)})
     args = st.fixed_dictionaries({"model": st.integers(0, 2), "safe": st.booleans()})
-    return history_machine("save-histories", SaveHistory, init, {"save": args, "collide": args}, stats, max_ops=6)
+    return history_machine("save-histories", SaveHistory, init, {"save": args, "collide": args, "failing_save": args}, stats, max_ops=6)
 
 
 def check_history(case):
